@@ -114,18 +114,36 @@ def r1_stepby(lines, origin, repo, relfile):
 
 
 def r2_refpat(lines, origin, repo, relfile):
-    """while let Some(&x) = E {  ->  while let Some(x__r) = E { let x = *x__r;"""
+    """while let Some(&x) = E {  ->  while let Some(x__r) = E { let x = *x__r;
+    (also the form produced by R8, where the brace is on the next line)"""
     out, oo, notes = [], [], []
-    pat = re.compile(r'^(\s*)while let Some\(&(\w+)\) = (.*) \{\s*$')
-    for l, o in zip(lines, origin):
+    pat = re.compile(r'^(\s*)while let Some\(&(\w+)\) = (.*?)( \{)?\s*$')
+    i = 0
+    while i < len(lines):
+        l, o = lines[i], origin[i]
         mm = pat.match(l)
         if mm:
-            ind, x, e = mm.groups()
-            out.append("%swhile let Some(%s__r) = %s { let %s = *%s__r;" % (ind, x, e, x, x))
+            ind, x, e, brace = mm.groups()
+            if brace:
+                out.append("%swhile let Some(%s__r) = %s { let %s = *%s__r;" % (ind, x, e, x, x))
+                oo.append(o)
+            else:
+                if i + 1 >= len(lines) or lines[i + 1].strip() != '{':
+                    raise RewriteError("R2: `while let Some(&%s)` head without body brace at %s:%d" % (x, relfile, o))
+                out.append("%swhile let Some(%s__r) = %s" % (ind, x, e))
+                oo.append(o)
+                out.append(lines[i + 1])
+                oo.append(origin[i + 1])
+                out.append("%s    let %s = *%s__r;" % (ind, x, x))
+                oo.append(o)
+                i += 1
             notes.append("R2 %s:%d `Some(&%s)` pattern -> deref binding" % (relfile, o, x))
         else:
+            if re.search(r'while let Some\(&', l):
+                raise RewriteError("R2: unknown `while let Some(&` shape at %s:%d" % (relfile, o))
             out.append(l)
-        oo.append(o)
+            oo.append(o)
+        i += 1
     return out, oo, notes
 
 
@@ -686,7 +704,96 @@ def rshadow(lines, origin, repo, relfile):
     raise RewriteError("RSHADOW: no fn found")
 
 
+def r10_option_closure(lines, origin, repo, relfile):
+    """RECV.and_then(|p| BODY)  ->  match (RECV) { Some(p) => BODY, None => None }
+    RECV.map(|p| BODY)          ->  match (RECV) { Some(p) => Some(BODY), None => None }
+    (the definitions of Option::and_then / Option::map, beta-reduced: Verus knows nothing about the result of a
+    closure that carries no spec, and a code line cannot carry one).  Fires only where the call is the tail of a
+    scrutinee (`let PAT = RECV.f(|p| BODY)` + ` {` / end of line, or the receiver of an outer rewritten call), RECV is a
+    postfix chain of paths / method calls, BODY is a single expression without `return`, `?`, `|`, braces or `;`.
+    Line structure is unchanged."""
+    text = '\n'.join(lines)
+    notes = []
+    n_done = 0
+    while True:
+        mask = rustscan.code_mask(text)
+        hits = [mm for mm in re.finditer(r'\.(and_then|map)\(\|\s*(\w+)\s*\|\s*', text) if mask[mm.start()]]
+        if not hits:
+            break
+        mm = hits[-1]
+        kind, var = mm.group(1), mm.group(2)
+        # closure body: up to the parenthesis closing the call
+        op = text.index('(', mm.start())
+        depth, k = 0, op
+        while k < len(text):
+            if mask[k]:
+                if text[k] in '([{':
+                    depth += 1
+                elif text[k] in ')]}':
+                    depth -= 1
+                    if depth == 0:
+                        break
+            k += 1
+        if k >= len(text):
+            raise RewriteError("R10: unterminated call at %s" % relfile)
+        body = text[mm.end():k]
+        if re.search(r'\breturn\b|\?|\||[{};]|\n', body):
+            raise RewriteError("R10: closure body `%s` is not a plain expression (%s)" % (body.strip(), relfile))
+        # what follows the call must end the scrutinee
+        rest = text[k + 1:]
+        if not re.match(r'[ \t]*(\{[ \t]*)?(\n|$)|[ \t]*\n[ \t]*\{|\)[ \t]*\{', rest) and not rest.lstrip(' \t').startswith(') {'):
+            raise RewriteError("R10: `.%s(|%s| ..)` is not the tail of a scrutinee at %s: `%s`" % (kind, var, relfile, rest[:30]))
+        # receiver: postfix chain scanned backwards from the dot
+        q = mm.start()
+        while True:
+            r = q - 1
+            while r >= 0 and text[r] in ' \t\n':
+                r -= 1
+            if r < 0:
+                raise RewriteError("R10: no receiver")
+            if text[r] == ')':
+                depth, j = 0, r
+                while j >= 0:
+                    if mask[j]:
+                        if text[j] in ')]}':
+                            depth += 1
+                        elif text[j] in '([{':
+                            depth -= 1
+                            if depth == 0:
+                                break
+                    j -= 1
+                if j < 0:
+                    raise RewriteError("R10: unbalanced receiver")
+                r = j - 1
+            m2 = re.search(r'([A-Za-z_][\w:]*)$', text[:r + 1])
+            if not m2:
+                raise RewriteError("R10: unknown receiver shape at %s: `%s`" % (relfile, text[max(0, r - 20):r + 1]))
+            start = m2.start()
+            t = start - 1
+            while t >= 0 and text[t] in ' \t\n':
+                t -= 1
+            if t >= 0 and text[t] == '.':
+                q = t
+                continue
+            break
+        before = text[:start].rstrip(' \t\n')
+        if not (before.endswith('=') and not before.endswith('==')) and not before.endswith('match ('):
+            raise RewriteError("R10: receiver of `.%s` does not start a scrutinee at %s: `%s`" % (kind, relfile, before[-30:]))
+        recv = text[start:mm.start()]
+        arm = body.strip() if kind == 'and_then' else 'Some(%s)' % body.strip()
+        # a receiver spread over several lines keeps its line breaks; the match arms go where the call was
+        text = text[:start] + 'match (' + recv + ') { Some(%s) => %s, None => None }' % (var, arm) + text[k + 1:]
+        n_done += 1
+        ln = origin[text.count('\n', 0, start)] if text.count('\n', 0, start) < len(origin) else origin[-1]
+        notes.append("R10 %s:%d `.%s(|%s| %s)` -> match on the receiver (definition of Option::%s)" % (relfile, ln, kind, var, body.strip(), kind))
+    out = text.split('\n')
+    if len(out) != len(lines):
+        raise RewriteError("R10: line structure changed")
+    return out, list(origin), notes
+
+
 RULES = {
+    'R10': r10_option_closure,
     'RSHADOW': rshadow,
     'R8': r8_loop_brace,
     'R9': r9_iter_inherent,
